@@ -187,6 +187,9 @@ pub enum Event {
     QueryPanic { t: usize, n: usize },
     #[serde(rename = "enter")]
     Enter { n: usize, x: u64 },
+    /// executor of node `n` (run `x`) obtained value `v` for dependency `d`
+    #[serde(rename = "read")]
+    Read { n: usize, x: u64, d: usize, v: i64 },
     #[serde(rename = "exec")]
     Exec { n: usize, x: u64, reads: Vec<(usize, i64)>, out: i64, ok: bool },
     #[serde(rename = "restart")]
@@ -271,6 +274,20 @@ pub async fn read<C: Config>(ctx: &Ctx, engine: &TrackedEngine<C>, dep: usize) -
     }
 }
 
+/// A dependency read performed by the executor of node `n` (run `x`): the
+/// value is logged the moment it is handed to the executor.
+async fn dep_read<C: Config>(
+    ctx: &Ctx,
+    engine: &TrackedEngine<C>,
+    n: usize,
+    x: u64,
+    d: usize,
+) -> i64 {
+    let v = read(ctx, engine, d - 1).await;
+    ctx.rec.push(Event::Read { n: n + 1, x, d, v });
+    v
+}
+
 struct ExecGuard<'a> {
     ctx: &'a Ctx,
     n: usize,
@@ -326,7 +343,7 @@ pub async fn run_node<C: Config>(ctx: &Ctx, engine: &TrackedEngine<C>, n: usize)
             }
             match it.mode {
                 1 => {
-                    let vs = join_all(it.deps.iter().map(|d| read(ctx, engine, d - 1))).await;
+                    let vs = join_all(it.deps.iter().map(|d| dep_read(ctx, engine, n, x, *d))).await;
                     for (i, (d, v)) in it.deps.iter().zip(vs).enumerate() {
                         guard.reads.lock().push((*d, v));
                         acc = ctx.prog.step(it, i, acc, v);
@@ -334,7 +351,7 @@ pub async fn run_node<C: Config>(ctx: &Ctx, engine: &TrackedEngine<C>, n: usize)
                 }
                 2 => {
                     unsafe { engine.start_unordered_callee_group() };
-                    let vs = join_all(it.deps.iter().map(|d| read(ctx, engine, d - 1))).await;
+                    let vs = join_all(it.deps.iter().map(|d| dep_read(ctx, engine, n, x, *d))).await;
                     unsafe { engine.end_unordered_callee_group() };
                     for (i, (d, v)) in it.deps.iter().zip(vs).enumerate() {
                         guard.reads.lock().push((*d, v));
@@ -343,7 +360,7 @@ pub async fn run_node<C: Config>(ctx: &Ctx, engine: &TrackedEngine<C>, n: usize)
                 }
                 _ => {
                     for (i, d) in it.deps.iter().enumerate() {
-                        let v = read(ctx, engine, d - 1).await;
+                        let v = dep_read(ctx, engine, n, x, *d).await;
                         guard.reads.lock().push((*d, v));
                         acc = ctx.prog.step(it, i, acc, v);
                         pause(ctx).await;
